@@ -131,6 +131,18 @@ def gen_pie(rs: Stream) -> Dict[str, Any]:
         blocks = [{"name": "b0", "cell": [0, 0, 0], "corners": [x + "_0" for x in a] + [x + "_1" for x in a]},
                   {"name": "b1", "cell": [1, 0, 0], "corners": [x + "_0" for x in b] + [x + "_1" for x in b]}]
         return {"points": points, "blocks": blocks, "curved": {}, "chops": [], "pie": 2}
+    if rs.chance(0.2):
+        # a ring closed by two blocks whose cross-section rolls a quarter turn on the way round: they share two
+        # faces, and one direction of either block runs along two different directions of the other
+        sx, sy, h = rs.uniform(0.7, 1.3), rs.uniform(0.7, 1.3), rs.uniform(0.8, 1.5)
+        xy = [[0.0, 0.0], [sx, 0.0], [sx, sy], [0.0, sy]]
+        points = {}
+        for i, (x, y) in enumerate(xy):
+            points[f"t{i}_0"] = [round(x, 6), round(y, 6), 0.0]
+            points[f"t{i}_1"] = [round(x + rs.uniform(-0.1, 0.1), 6), round(y + rs.uniform(-0.1, 0.1), 6), round(h, 6)]
+        blocks = [{"name": "b0", "cell": [0, 0, 0], "corners": [f"t{i}_0" for i in range(4)] + [f"t{i}_1" for i in range(4)]},
+                  {"name": "b1", "cell": [1, 0, 0], "corners": [f"t{i}_1" for i in range(4)] + [f"t{(i + 1) % 4}_0" for i in range(4)]}]
+        return {"points": points, "blocks": blocks, "curved": {}, "chops": [], "pie": 2}
     k = rs.weighted([(3, 2), (4, 2), (5, 2), (6, 2), (8, 2), (12, 1), (19, 1), (20, 2), (22, 1), (24, 2)])
     m = k + (rs.pick([1, 2, 3]) if rs.chance(0.3) else 0)  # a full circle, or part of one
     m = max(m, 3)
@@ -563,7 +575,7 @@ def make_program(geo: Dict[str, Any], cfg_seed: int, identity: bool = False) -> 
             if key[0] + "|" + key[1] in only_first and first_owner.get(key[0] + "|" + key[1]) != nme:
                 continue
             if cv["kind"] == "arc":
-                edges.append({"c1": c1, "c2": c2, "kind": "arc", "data": cv["data"]})
+                edges.append(dict({"c1": c1, "c2": c2, "kind": "arc", "data": cv["data"]}, **({"as": geo["arc_as"]} if geo.get("arc_as") else {})))
             else:
                 data = cv["data"] if corners[c1] == key[0] else list(reversed(cv["data"]))
                 edges.append({"c1": c1, "c2": c2, "kind": "polyline", "data": data})
